@@ -17,7 +17,7 @@ func init() {
 	property("C06",
 		"Static conformance of the hoisting mechanism: (a) each inline arm of the argument loop records one text/movement with the command being built, the index of the argument being built, the owning script name, and leaves one placeholder in the argument; (b) addImplicitTexts / addImplicitMovements patch exactly that argument with a label, on a miss define the label once (same key for lookup and insert, the per-script counter used is the one incremented, content and string type copied from the record, local scope), dedup keys cover content and string type / separator-joined steps; (c) every *impData produced by a callee flows into the value the function returns (or into the program) on every successful path — nothing collected on the way up is lost; (d) label formats; (e) every program text is emitted and hoisted movements are dispatched to the movement emitter. Inline data is handed over on every successful path and merged in source order (C06.c); add/addImplicitData always merge both kinds; token literals are source text (C19.f).",
 		[]string{"Go map equality of the dedup key struct (content, string type)", "scheme argument of DESIGN §4 C06"},
-		"C06.a", "C06.b", "C06.c", "C06.d", "C06.e", "C12.a", "C20.d", "C09.b", "C10.f", "C19.f")
+		"C06.a", "C06.b", "C06.c", "C06.d", "C06.e", "C12.a", "C20.d", "C09.b", "C10.f", "C19.f", "C08.e")
 
 	register(&Rule{ID: "C06.a", Doc: "inline arms record (command, argument index, script, content) and leave a placeholder", Floor: 10, Run: c06a})
 	register(&Rule{ID: "C06.b", Doc: "patch-and-define protocol of addImplicitTexts / addImplicitMovements", Floor: 14, Run: c06b})
@@ -77,6 +77,26 @@ func c06a(c *Ctx) {
 	}
 	cmdT := c.term(fn, cmds[0])
 	n := 0
+	// the record lists only grow at their end, one record at a time: labels are numbered in the
+	// order of the list, which must be the order of appearance
+	for _, unit := range c.unitOf(fn) {
+		for _, fld := range []string{"texts", "movements"} {
+			for i, st := range storesToField(unit.fn, "parser", "impData", fld) {
+				if _, fresh := rootValue(st.Addr).(*ssa.Alloc); fresh && !strings.HasPrefix(c.term(unit.fn, st.Val), "builtin:append(") {
+					continue // the empty list of a new impData
+				}
+				okGrow := false
+				if call, isCall := st.Val.(*ssa.Call); isCall && calleeName(call) == "builtin:append" && len(call.Call.Args) == 2 {
+					if ld, isLd := call.Call.Args[0].(*ssa.UnOp); isLd {
+						if _, _, f0, ok := fieldAddrOf(ld.X); ok && f0 == fld && len(varargElems(call.Call.Args[1])) == 1 {
+							okGrow = true
+						}
+					}
+				}
+				c.Check(okGrow, fmt.Sprintf("record-list-grows-at-the-end/%s/%s#%d", unit.fn.Name(), fld, i), c.W.Pos(st.Pos()), "the record list is extended by one record at its end", unit.fn.Name()+" stores "+pretty(c.term(unit.fn, st.Val))+" into the list of inline "+fld+": records must be appended one at a time at the end (the order of the list is the order labels are numbered in)")
+			}
+		}
+	}
 	// record sites: every append of an impText / impMovement value (written as a composite
 	// literal or made by a constructor helper)
 	instrs(fn, func(in ssa.Instruction) {
